@@ -67,11 +67,20 @@ def srgbToLinearG {α : Type} [Add α] [Div α] [LE α] [DecidableLE α]
 def srgbToLinearWith (lowBelow : Bool) (c : Float) : Float :=
   srgbToLinearG Float.pow litsF.one srgbScaleF srgbAF srgbGammaF srgbSlopeF srgbKneeF lowBelow c
 
-/-- sRGB encoding of one linear value, result scaled to 0..255 -/
+/-- sRGB encoding of one linear value, result scaled to 0..255, generic:
+    `high = (1+a)·v^(1/gamma) − a`, `low = slope·v`; `lowBelow` says which alternative `np.choose` takes
+    where `v ≤ knee` (the standard: the linear segment); the selected value is multiplied by `scale`.
+    (`gamma` and `scale` are the literals `2.4` of `1./2.4` and `255.` of `srgb *= 255.` in `xyz2rgb`.) -/
+def linearToSrgbG {α : Type} [Add α] [Sub α] [Mul α] [Div α] [LE α] [DecidableLE α]
+    (pow : α → α → α) (one gamma a slope knee scale : α) (lowBelow : Bool) (v : α) : α :=
+  let high := (one + a) * pow v (one / gamma) - a
+  let low := slope * v
+  (if v ≤ knee then (if lowBelow then low else high) else (if lowBelow then high else low)) * scale
+
+/-- sRGB encoding at `Float` with the extracted constants (`(1.0 + a) * pow v (1.0 / 2.4) - a`,
+    `12.92 * v`, `… * 255.0`) -/
 def linearToSrgbWith (lowBelow : Bool) (v : Float) : Float :=
-  let high := (1.0 + srgbAInvF) * Float.pow v (1.0 / 2.4) - srgbAInvF
-  let low := srgbSlopeInvF * v
-  (if v ≤ srgbKneeInvF then (if lowBelow then low else high) else (if lowBelow then high else low)) * 255.0
+  linearToSrgbG Float.pow litsF.one 2.4 srgbAInvF srgbSlopeInvF srgbKneeInvF 255.0 lowBelow v
 
 /-- the CIE L*a*b* helper `f`, generic: `large = t^(1/3)`, `small = ((1/3)(29/6)(29/6)) t + 4/29`,
     knee `(δnum/δden)^k`; `smallBelow` = which alternative is taken where `t ≤ knee` -/
@@ -92,8 +101,12 @@ def rgb2xyzG {α : Type} [Add α] [Mul α] [OfNat α 0] (m : List (List α)) (tr
 def rgb2xyzWith (lowBelow : Bool) (rgb : List Float) : List Float :=
   rgb2xyzG rgb2xyzMF (srgbToLinearWith lowBelow) rgb
 
+/-- `xyz2rgb`, generic: the matrix, then the encoding on each channel -/
+def xyz2rgbG {α : Type} [Add α] [Mul α] [OfNat α 0] (m : List (List α)) (encode : α → α) (xyz : List α) : List α :=
+  (matVec m xyz).map encode
+
 def xyz2rgbWith (lowBelow : Bool) (xyz : List Float) : List Float :=
-  (matVec xyz2rgbMF xyz).map (linearToSrgbWith lowBelow)
+  xyz2rgbG xyz2rgbMF (linearToSrgbWith lowBelow) xyz
 
 /-- `xyz2lab`, generic: `L = 116 f(y/yn) − 16`, `a = 500 (f(x/xn) − f(y/yn))`, `b = 200 (f(y/yn) − f(z/zn))` -/
 def xyz2labG {α : Type} [Sub α] [Mul α] [Div α] (f : α → α) (L : Lits α) (white xyz : List α) : List α :=
@@ -191,6 +204,19 @@ def stretchList {α : Type} [Add α] [Sub α] [Mul α] [Div α] [LT α] [Decidab
 /-- C cast double → integer dtype (truncation towards zero); exact for |v| < 2^63 -/
 def truncF (v : Float) : Int := v.toInt64.toInt
 
+/-- exact counterpart of `truncF`: the C conversion of a real (here rational) number to an integer type
+    discards the fractional part, i.e. rounds **towards zero** (`floor` for `q ≥ 0`, `-floor(-q) = ceil q`
+    for `q < 0`) — not `floor`: `truncQ (-5/2) = -2`. -/
+def truncQ (q : Rat) : Int := if 0 ≤ q then q.floor else -((-q).floor)
+
+/-- the exact rational value of a finite double (`frexp`: `v = m·2^e`, `m·2^53` is an integer); only used by
+    the driver to print `truncQ` beside `truncF` -/
+def floatToRat (v : Float) : Rat :=
+  let (m, e) := v.frExp
+  let mi : Int := (m * 9007199254740992.0).toInt64.toInt
+  let k := e - 53
+  if 0 ≤ k then ((mi * (2 : Int) ^ k.toNat : Int) : Rat) else mkRat mi (2 ^ (-k).toNat)
+
 /-! ## driver -/
 
 def triples (xs : List Float) : List (List Float) :=
@@ -221,7 +247,7 @@ def handle (a : Args) : String :=
     let lo := Float.ofInt (a.int "lo")
     let hi := Float.ofInt (a.int "hi")
     let ys := stretchList xs lo hi
-    s!"float={showFloats ys} int={showInts (ys.map truncF)}"
+    s!"float={showFloats ys} int={showInts (ys.map truncF)} intq={showInts (ys.map fun y => truncQ (floatToRat y))}"
   | "consts" =>
     s!"m={showFloats (rgb2xyzMF.flatten ++ xyz2rgbMF.flatten ++ sepiaMF.flatten ++ greyWF ++ labWhiteF)}"
   | k => s!"error=unknown-kind-{k}"
